@@ -53,7 +53,7 @@ class ThreatSignature:
         """Check if this signature matches the content."""
         if self.is_regex and self._compiled:
             return bool(self._compiled.search(content))
-        return self.pattern.lower() in content.lower()
+        return self.pattern.casefold() in content.casefold()
 
 
 @dataclass
